@@ -63,11 +63,14 @@ type Case struct {
 	// Bystander: a valid index of other content waits under a name derived
 	// from the output name (0 none, 1 <out>.tmp, 2 <out>~, 3 <out>.new, 4 .<base>.tmp)
 	Bystander int
+	// OutName: length of the output file's base name (0 = the short default);
+	// file systems allow 255 bytes, and names derived from it must still fit
+	OutName int
 }
 
 func (c *Case) Summary() string {
 	var b strings.Builder
-	fmt.Fprintf(&b, "mode=%s global-flags=%03b bystander=%d csv=%s existing-output=%s header=%+q records[%d]", map[bool]string{true: "--big", false: "normal"}[c.Big], c.Global, c.Bystander, malName[c.Malformed], existName[c.Existing], c.Header, len(c.Records))
+	fmt.Fprintf(&b, "mode=%s global-flags=%03b bystander=%d out-name-bytes=%d csv=%s existing-output=%s header=%+q records[%d]", map[bool]string{true: "--big", false: "normal"}[c.Big], c.Global, c.Bystander, c.OutName, malName[c.Malformed], existName[c.Existing], c.Header, len(c.Records))
 	for i, r := range c.Records {
 		if i >= 5 {
 			b.WriteString(" …")
@@ -172,6 +175,9 @@ func oracle(c *Case) error {
 		return fmt.Errorf("INFRA: %v", err)
 	}
 	out := filepath.Join(dir, "out.updog")
+	if c.OutName > 0 {
+		out = filepath.Join(dir, strings.Repeat("o", c.OutName-6)+".updog")
+	}
 	switch c.Existing {
 	case EZero:
 		os.WriteFile(out, nil, 0o644)
@@ -344,6 +350,10 @@ func drawCase(t *rapid.T, maxRecords int) *Case {
 	}
 	if rapid.IntRange(0, 5).Draw(t, "bystander?") == 0 {
 		c.Bystander = rapid.IntRange(1, 4).Draw(t, "bystander")
+	}
+	if rapid.IntRange(0, 7).Draw(t, "longout?") == 0 {
+		c.OutName = rapid.SampledFrom([]int{200, 240, 250, 255}).Draw(t, "outname")
+		c.Bystander = 0 // names derived from a 255-byte name do not exist
 	}
 	ncols := rapid.IntRange(1, 5).Draw(t, "ncols")
 	for i := 0; i < ncols; i++ {
@@ -522,6 +532,18 @@ func replay(cf *evid.CaseFile) error {
 
 // bigCSV: a CSV with very many records and few distinct values per column (the
 // stored bitmaps are tens of KiB each), ingested in both modes.
+// manyValuesCSV: more than 65,536 distinct (column,value) pairs (a unique id
+// per record) in both modes.
+func manyValuesCSV(t *testing.T, n int) {
+	for _, big := range []bool{false, true} {
+		c := &Case{Header: []string{"Id", "Cc"}, Big: big, FinalNL: true}
+		for i := 0; i < n; i++ {
+			c.Records = append(c.Records, []string{fmt.Sprintf("id-%d", i), fmt.Sprintf("w%d", i%7)})
+		}
+		run(t, c)
+	}
+}
+
 func bigCSV(t *testing.T, n int) {
 	for _, big := range []bool{false, true} {
 		c := &Case{Header: []string{"Aa", "Cc"}, Big: big, FinalNL: true}
@@ -535,6 +557,7 @@ func bigCSV(t *testing.T, n int) {
 func TestQuick(t *testing.T) {
 	fix.Pinned(t, prop, replay)
 	bigCSV(t, 200000)
+	manyValuesCSV(t, 70001)
 	fix.Check(t, "create", 240, func(rt *rapid.T) { run(rt, drawCase(rt, 60)) })
 	fix.Check(t, "race", 25, func(rt *rapid.T) { runRace(rt, drawRace(rt)) })
 }
@@ -544,6 +567,8 @@ func TestThorough(t *testing.T) {
 		fix.Pinned(t, prop, replay)
 		bigCSV(t, 200000)
 		bigCSV(t, 300001)
+		manyValuesCSV(t, 70001)
+		manyValuesCSV(t, 140003)
 	}
 	fix.Check(t, "create", 4000, func(rt *rapid.T) { run(rt, drawCase(rt, 300)) })
 	fix.Check(t, "race", 150, func(rt *rapid.T) { runRace(rt, drawRace(rt)) })
